@@ -1,65 +1,11 @@
-"""Contracts for the `cbc` crate."""
+"""Contracts for the `cbc` crate (C02; carried into C01, C07, C09, C12, C15, C17)."""
 from vf.extract import FnC, Sel, Mod
 from vf.unit import Unit, Lemma
 from contracts import common as K
 
 P_REC = ('C02', 'C01', 'C07', 'C12')
 
-BACKEND_PROOF_1 = '''
-        proof {
-            run_one(old(self).step(), old(self).abs(), x0);
-            assert(self.abs() =~= old(self).step()(old(self).abs(), x0).0);
-        }
-'''
-
-
-def decrypt_mod():
-    return Mod('cbc_decrypt', 'cbc/src/decrypt.rs', uses='use super::cbc_lib::xor;', items=[
-        Sel('struct Decryptor'),
-        Sel('impl BlockSizeUser for Decryptor'),
-        Sel('struct Closure', inside='decrypt_with_backend'),
-        Sel('impl BlockSizeUser for Closure', inside='decrypt_with_backend'),
-        Sel('impl BlockCipherDecClosure for Closure', inside='decrypt_with_backend',
-            members=K.closure_members('dec', 'cbc_dec_step'),
-            fns={'call': FnC(props=('C07', 'C02'), inherits=True, note='plumbing: builds Backend{iv, cipher_backend}')}),
-        Sel('impl BlockModeDecrypt for Decryptor', members=K.mode_members('cbc_dec_step(self.cipher.dec_fn())'),
-            fns={'decrypt_with_backend': FnC(props=('C07', 'C02'), inherits=True)}),
-        Sel('impl InnerUser for Decryptor'),
-        Sel('impl IvSizeUser for Decryptor'),
-        Sel('impl InnerIvInit for Decryptor', fns={'inner_iv_init': FnC(ret='r', props=('C09', 'C02'), ensures=[
-            ('iv', ('C09', 'C02'), 'r.iv@ == iv@'),
-            ('cipher', ('C09', 'C14'), 'r.cipher == cipher')])}),
-        Sel('impl IvState for Decryptor', fns={'iv_state': FnC(ret='r', props=('C09',), ensures=[
-            ('state', ('C09',), 'r@ == self.iv@')])}),
-        Sel('impl AlgorithmName for Decryptor',
-            members='    open spec fn alg_name() -> Seq<char> { "cbc::Decryptor<"@ + C::alg_name() + ">"@ }',
-            fns={'write_alg_name': K.fmt_fn()}),
-        Sel('impl Debug for Decryptor', fns={'fmt': K.fmt_fn()}),
-        Sel('impl Drop for Decryptor', fns={'drop': K.drop_fn(['iv'])}),
-        Sel('struct Backend'),
-        Sel('impl BlockSizeUser for Backend'),
-        Sel('impl ParBlocksSizeUser for Backend'),
-        Sel('impl BlockModeDecBackend for Backend',
-            members=K.backend_members('cbc_dec_step(self.cipher_backend.dec_fn())'),
-            fns={
-                'decrypt_block': FnC(props=P_REC, inherits=True, ensures=[
-                    ('out', P_REC, 'block.out_fut()@ == xor_seq(old(self).cipher_backend.dec_fn()(block.in_val()@), old(self).iv@)'),
-                    ('state', P_REC + ('C09', 'C15'), 'final(self).iv@ == block.in_val()@'),
-                ] + K.frame_iv_backend(),
-                    stmts={'0': 'let ghost x0 = block.in_val()@;', 'end': BACKEND_PROOF_1}),
-                'decrypt_par_blocks': FnC(props=P_REC, inherits=True, ensures=[
-                    ('out', P_REC, '''forall |i: int| 0 <= i < BK::ParBlocksSize::USIZE ==>
-                (#[trigger] blocks.out_fut()@[i])@ == xor_seq(
-                    old(self).cipher_backend.dec_fn()(blocks.in_val()@[i]@),
-                    if i == 0 { old(self).iv@ } else { blocks.in_val()@[i - 1]@ })'''),
-                    ('state', P_REC + ('C09', 'C15'), 'final(self).iv@ == blocks.in_val()@[BK::ParBlocksSize::USIZE - 1]@'),
-                ] + K.frame_iv_backend(),
-                    stmts={'0': '''
-        broadcast use Array::axiom_len;
-        let ghost in0 = blocks.in_val();
-        let ghost iv0 = self.iv@;
-        let ghost d = self.cipher_backend.dec_fn();
-''', '4': 'let ghost t0 = t;', 'end': '''
+PAR_PROOF = '''
         proof {
             let w = BK::ParBlocksSize::USIZE as int;
             let xs = views(in0@);
@@ -73,8 +19,30 @@ def decrypt_mod():
             assert(self.abs() =~= states(w));
             assert(old(self).abs() =~= seq![iv0]);
         }
-'''},
-                    loops={0: '''
+'''
+
+
+def dec_backend_fns():
+    return {
+        'decrypt_block': FnC(props=P_REC, inherits=True, ensures=[
+            ('out', P_REC, 'block.out_fut()@ == xor_seq(old(self).cipher_backend.dec_fn()(block.in_val()@), old(self).iv@)'),
+            ('state', P_REC + ('C09', 'C15'), 'final(self).iv@ == block.in_val()@'),
+        ] + K.frame_iv_backend(),
+            stmts={'0': 'let ghost x0 = block.in_val()@;', 'end': K.BACKEND_PROOF_1}),
+        'decrypt_par_blocks': FnC(props=P_REC, inherits=True, ensures=[
+            ('out', P_REC, '''forall |i: int| 0 <= i < BK::ParBlocksSize::USIZE ==>
+                (#[trigger] blocks.out_fut()@[i])@ == xor_seq(
+                    old(self).cipher_backend.dec_fn()(blocks.in_val()@[i]@),
+                    if i == 0 { old(self).iv@ } else { blocks.in_val()@[i - 1]@ })'''),
+            ('state', P_REC + ('C09', 'C15'), 'final(self).iv@ == blocks.in_val()@[BK::ParBlocksSize::USIZE - 1]@'),
+        ] + K.frame_iv_backend(),
+            stmts={'0': '''
+        broadcast use Array::axiom_len;
+        let ghost in0 = blocks.in_val();
+        let ghost iv0 = self.iv@;
+        let ghost d = self.cipher_backend.dec_fn();
+''', '4': 'let ghost t0 = t;', 'end': PAR_PROOF},
+            loops={0: '''
             invariant
                 n == BK::ParBlocksSize::USIZE, n > 1, t@.len() == n, in_blocks == in0, in0@.len() == n, t0@.len() == n,
                 1 <= i <= n,
@@ -85,52 +53,25 @@ def decrypt_mod():
                 forall |j: int| 0 <= j < i ==> (#[trigger] t@[j])@ == xor_seq(t0@[j]@, if j == 0 { iv0 } else { in0@[j - 1]@ }),
                 forall |j: int| i <= j < n ==> t@[j] == t0@[j],
 '''}),
-            }),
-    ])
+    }
 
 
-def encrypt_mod():
-    return Mod('cbc_encrypt', 'cbc/src/encrypt.rs', uses='use super::cbc_lib::xor;', items=[
-        Sel('struct Encryptor'),
-        Sel('impl BlockSizeUser for Encryptor'),
-        Sel('struct Closure', inside='encrypt_with_backend'),
-        Sel('impl BlockSizeUser for Closure', inside='encrypt_with_backend'),
-        Sel('impl BlockCipherEncClosure for Closure', inside='encrypt_with_backend',
-            members=K.closure_members('enc', 'cbc_enc_step'),
-            fns={'call': FnC(props=('C07', 'C02'), inherits=True)}),
-        Sel('impl BlockModeEncrypt for Encryptor', members=K.mode_members('cbc_enc_step(self.cipher.enc_fn())'),
-            fns={'encrypt_with_backend': FnC(props=('C07', 'C02'), inherits=True)}),
-        Sel('impl InnerUser for Encryptor'),
-        Sel('impl IvSizeUser for Encryptor'),
-        Sel('impl InnerIvInit for Encryptor', fns={'inner_iv_init': FnC(ret='r', props=('C09', 'C02'), ensures=[
-            ('iv', ('C09', 'C02'), 'r.iv@ == iv@'),
-            ('cipher', ('C09', 'C14'), 'r.cipher == cipher')])}),
-        Sel('impl IvState for Encryptor', fns={'iv_state': FnC(ret='r', props=('C09',), ensures=[
-            ('state', ('C09',), 'r@ == self.iv@')])}),
-        Sel('impl AlgorithmName for Encryptor',
-            members='    open spec fn alg_name() -> Seq<char> { "cbc::Encryptor<"@ + C::alg_name() + ">"@ }',
-            fns={'write_alg_name': K.fmt_fn()}),
-        Sel('impl Debug for Encryptor', fns={'fmt': K.fmt_fn()}),
-        Sel('impl Drop for Encryptor', fns={'drop': K.drop_fn(['iv'])}),
-        Sel('struct Backend'),
-        Sel('impl BlockSizeUser for Backend'),
-        Sel('impl ParBlocksSizeUser for Backend'),
-        Sel('impl BlockModeEncBackend for Backend',
-            members=K.backend_members('cbc_enc_step(self.cipher_backend.enc_fn())'),
-            fns={
-                'encrypt_block': FnC(props=P_REC, inherits=True, ensures=[
-                    ('out', P_REC, 'block.out_fut()@ == old(self).cipher_backend.enc_fn()(xor_seq(block.in_val()@, old(self).iv@))'),
-                    ('state', P_REC + ('C09',), 'final(self).iv@ == block.out_fut()@'),
-                ] + K.frame_iv_backend(),
-                    stmts={'0': 'let ghost x0 = block.in_val()@;', 'end': BACKEND_PROOF_1}),
-            }),
-    ])
-
-
-def lib_mod():
-    return Mod('cbc_lib', 'cbc/src/lib.rs', items=[Sel('fn xor', fns={'xor': K.xor_fn()})])
+def enc_backend_fns():
+    return {
+        'encrypt_block': FnC(props=P_REC, inherits=True, ensures=[
+            ('out', P_REC, 'block.out_fut()@ == old(self).cipher_backend.enc_fn()(xor_seq(block.in_val()@, old(self).iv@))'),
+            ('state', P_REC + ('C09',), 'final(self).iv@ == block.out_fut()@'),
+        ] + K.frame_iv_backend(),
+            stmts={'0': 'let ghost x0 = block.in_val()@;', 'end': K.BACKEND_PROOF_1}),
+    }
 
 
 def unit():
-    return Unit('cbc', prelude=K.PRELUDE_BLOCK, spec=['steps.rs'],
-                mods=[lib_mod(), decrypt_mod(), encrypt_mod()])
+    lib = Mod('cbc_lib', 'cbc/src/lib.rs', items=[Sel('fn xor', fns={'xor': K.xor_fn()})])
+    dec = K.std_block_mode_mod('cbc', 'dec', 'cbc/src/decrypt.rs', 'cbc_dec_step', uses='use super::cbc_lib::xor;',
+                               backend_fns=dec_backend_fns(), init_fns=K.init_plain(('C09', 'C02')),
+                               state_fns=K.state_plain(), props_rec=P_REC)
+    enc = K.std_block_mode_mod('cbc', 'enc', 'cbc/src/encrypt.rs', 'cbc_enc_step', uses='use super::cbc_lib::xor;',
+                               backend_fns=enc_backend_fns(), init_fns=K.init_plain(('C09', 'C02')),
+                               state_fns=K.state_plain(), props_rec=P_REC)
+    return Unit('cbc', prelude=K.PRELUDE_BLOCK, spec=['steps.rs'], mods=[lib, dec, enc])
